@@ -8,7 +8,11 @@ wt=/tmp/mutwt-$$; out=/tmp/mutout-$$
 git -C /repo worktree add -q --detach "$wt" HEAD || exit 3
 cp /repo/biom/*.so "$wt/biom/"
 res=0
-if ! git -C "$wt" apply "$dir/patch.diff"; then echo "SEED: patch does not apply"; git -C /repo worktree remove --force "$wt"; exit 4; fi
+# the change was made against the HEAD of its day; later repairs may have moved its context
+if git -C "$wt" apply "$dir/patch.diff" 2>/dev/null; then echo "SEED patch: applies"
+elif git -C "$wt" apply --3way "$dir/patch.diff" >/dev/null 2>&1 && ! git -C "$wt" diff --name-only --diff-filter=U | grep -q .; then git -C "$wt" reset -q; echo "SEED patch: applies (3-way)"
+elif (cd "$wt" && git checkout -q -- . && patch -p1 -s -F3 --no-backup-if-mismatch < "$dir/patch.diff" >/dev/null 2>&1); then echo "SEED patch: applies (fuzz)"
+else echo "SEED: patch does not apply"; git -C /repo worktree remove --force "$wt"; exit 4; fi
 tests=$(cd "$wt" && PYTHONPATH="$wt" /venv/bin/python -m pytest -q -p no:cacheprovider --timeout=900 --continue-on-collection-errors 2>&1 | tail -1)
 echo "SEED tests with change: $tests"
 if [ -f "$dir/demo.py" ]; then
